@@ -77,6 +77,26 @@ def severity_table():
     return sev_values, rows
 
 
+def compatible_severity(src, sev_values):
+    """`def _compatible(change): change.severity = SchemaChangeSeverity.X; return change`, applied to the
+    `*ChangedType` instances of safe retypings (where it is applied is modelled by hand in Diff.lean and tied
+    by the correspondence). None when the module has no such helper or never calls it."""
+    tree = ast.parse(src)
+    fn = [n for n in tree.body if isinstance(n, ast.FunctionDef) and n.name == "_compatible"]
+    calls = [n for n in ast.walk(tree) if isinstance(n, ast.Call) and getattr(n.func, "id", None) == "_compatible"]
+    if not fn or not calls:
+        return None
+    b = [x for x in fn[0].body if not (isinstance(x, ast.Expr) and isinstance(x.value, ast.Constant))]
+    ok = (len(fn[0].args.args) == 1 and len(b) == 2 and isinstance(b[0], ast.Assign) and isinstance(b[1], ast.Return)
+          and isinstance(b[0].targets[0], ast.Attribute) and b[0].targets[0].attr == "severity"
+          and getattr(b[0].targets[0].value, "id", None) == fn[0].args.args[0].arg
+          and isinstance(b[0].value, ast.Attribute) and b[0].value.attr in sev_values
+          and isinstance(b[1].value, ast.Name) and b[1].value.id == fn[0].args.args[0].arg)
+    if not ok:
+        raise py2lean.Untranslatable("_compatible is not `change.severity = SchemaChangeSeverity.X; return change`")
+    return sev_values[b[0].value.attr]
+
+
 def extract(ctx):
     src = DIFFER.read_text()
     rec = {"_is_safe_input_type_change": "recIn", "_is_safe_output_type_change": "recOut"}
@@ -99,6 +119,11 @@ def extract(ctx):
             body.append('  ("%s", %d, %d)' % (name, static, static))
     lines.append(",\n".join(body))
     lines.append("]")
+    lines.append("")
+    lines.append("/-- `_compatible(change)`: the severity given to the type changes the differ considers safe for clients")
+    lines.append("    (`none`: the source has no such helper: those retypings are not reported at all) -/")
+    cs = compatible_severity(src, sev)
+    lines.append("def compatibleRetypeSeverity : Option Nat := %s" % ("none" if cs is None else "some %d" % cs))
     lines.append("end PyGql.Generated.Differ")
     return {"PyGqlModel/Generated/Differ.lean": "\n".join(lines) + "\n"}
 
